@@ -159,6 +159,34 @@ fn c08_pixel_decode() {
 }
 
 // @harness
+// @prop C15
+// @tier quick
+// @timeout 900
+// @fn ZXScreen::process_clocks; BlocksCount::from_clocks; BlocksCount::passed_from
+// @sym machine; the frame time the renderer had reached (any in-frame T); the frame time it is handed next: ANY earlier time (an SZX Z80R chunk loaded after a mid-frame stop moves the frame clock backwards), the same time, or up to 16 T later
+// @assert emulating on after a load that moved the frame clock cannot panic in the renderer: no arithmetic overflow, no index out of range; nothing is painted outside the canvas and the recorded position stays inside it (was a genuine defect: `columns - prev.columns` underflowed on a rewind within one scan line)
+// @bound forward steps of at most 16 T (render loop of at most 5 cells; unwind 12); backward steps of any size
+#[kani::proof]
+#[kani::unwind(12)]
+fn c15_renderer_total_when_the_frame_clock_moves_backwards() {
+    let m = any_machine();
+    let mut s = ZXScreen::<WitFb>::new(m, witness_pixel());
+    let f = spec_frame_t(m);
+    let t0: usize = kani::any();
+    let t1: usize = kani::any();
+    kani::assume(t0 < f + 40 && t1 <= t0 + 16);
+    s.last_blocks = BlocksCount::from_clocks(t0, m);
+    s.process_clocks(t1);
+    kani::assert(!s.back_buffer.oob, "c15.renderer.inside_canvas");
+    kani::assert(s.last_blocks.lines <= CANVAS_HEIGHT && s.last_blocks.columns <= ATTR_COLS, "c15.renderer.position_inside_canvas");
+    let b0 = BlocksCount::from_clocks(t0, m);
+    let b1 = BlocksCount::from_clocks(t1, m);
+    kani::cover!(t1 < t0 && b0.lines == b1.lines && b1.columns < b0.columns, "clock moved backwards within one scan line");
+    kani::cover!(t1 < t0 && b1.lines < b0.lines, "clock moved backwards to an earlier line");
+    kani::cover!(t1 > t0 && s.back_buffer.hits > 0, "ordinary forward step");
+}
+
+// @harness
 // @prop C08
 // @tier quick
 // @timeout 900
